@@ -67,8 +67,24 @@ func genC03(t *rapid.T) C03Case {
 		g.Prog.Main = append(g.Prog.Main[:pos], append([]ragen.Line{l}, g.Prog.Main[pos:]...)...)
 		lab["ambiguous-line"] = true
 	}
+	// several exclude files that define the same name differently and use it to spell their entries:
+	// the order in which they are read must not matter
+	if rapid.IntRange(0, 3).Draw(t, "exdefs") == 0 {
+		g.Prog.Files["include/wl.ra"] = []ragen.Line{{K: ragen.KEntry, T: "alpha"}, {K: ragen.KEntry, T: "beta"}, {K: ragen.KEntry, T: "gamma"}, {K: ragen.KEntry, T: "delta"}}
+		vals := rapid.Permutation([]string{"alpha", "beta", "gamma", "delta"}).Draw(t, "exvals")
+		nx := rapid.IntRange(2, 4).Draw(t, "nexdefs")
+		var ex []string
+		for i := 0; i < nx; i++ {
+			n := fmt.Sprintf("xd%d", i)
+			g.Prog.Files["exclude/"+n+".ra"] = []ragen.Line{{K: ragen.KDefine, Name: "word", T: vals[i]}, {K: ragen.KEntry, T: "{{word}}"}}
+			ex = append(ex, n)
+		}
+		g.Prog.Main = append(g.Prog.Main, ragen.Line{K: ragen.KExcept, File: "wl", Excl: ex})
+		lab["exclude-files-with-same-definition-name"] = true
+		lab["include-except"] = true
+	}
 	// a second, independent assembly file for the --all modes is added by the check
-	mode := rapid.SampledFrom([]string{"generate-stdin", "generate-stdin", "generate-id", "format", "update", "compare", "update-all", "compare-all", "format-all", "format-check"}).Draw(t, "mode")
+	mode := rapid.SampledFrom([]string{"generate-stdin", "generate-stdin", "generate-id", "format", "update", "compare", "update-all", "compare-all", "format-all", "format-check", "format-check-all", "format-check-all-github"}).Draw(t, "mode")
 	k := 6
 	if thorough() {
 		k = 16
@@ -88,6 +104,9 @@ func c03Run(c C03Case) c03Obs {
 	tree := cli.Tree(c.Prog.Tree())
 	tree["regex-assembly/932100.ra"] = c.Prog.MainText()
 	tree["regex-assembly/932200.ra"] = "##! second file\nfoo\nbar\n"
+	tree["regex-assembly/941100.ra"] = "  unformatted\n"
+	tree["regex-assembly/942100.ra"] = "\tunformatted too\n\n\n"
+	tree["regex-assembly/include/zz-unformatted.ra"] = "   x\n"
 	tree["rules/REQUEST-932-APPLICATION-ATTACK-RCE.conf"] = c03Rules
 	root := sb.Path("crs")
 	if err := tree.Write(root); err != nil {
@@ -107,6 +126,10 @@ func c03Run(c C03Case) c03Obs {
 		args = []string{"regex", "format", "--check", "932100"}
 	case "format-all":
 		args = []string{"regex", "format", "--all"}
+	case "format-check-all":
+		args = []string{"regex", "format", "--check", "--all"}
+	case "format-check-all-github":
+		args = []string{"-o", "github", "regex", "format", "--check", "--all"}
 	case "update":
 		args = []string{"regex", "update", "932100"}
 	case "update-all":
@@ -160,7 +183,7 @@ func checkC03(c C03Case) Outcome {
 	mapDriven := false
 	for _, l := range c.Lab {
 		switch l {
-		case "suffix-pairs", "defs", "include-except", "ambiguous-line", "def-nested":
+		case "suffix-pairs", "defs", "include-except", "ambiguous-line", "def-nested", "exclude-files-with-same-definition-name":
 			mapDriven = true
 		}
 	}
